@@ -71,7 +71,7 @@ func (w *Worker) newPath(h *ssa.Function, prefix []int) *Path {
 		maxSteps: e.maxSteps, maxDepth: e.maxDepth, globals: map[*ssa.Global]*Value{}, initDone: map[*ssa.Package]bool{},
 		side: map[*Value]interface{}{}, asserts: map[string]bool{}, covers: map[string]bool{}, coverSeen: map[string]bool{},
 		witnessed: map[string]bool{}, ufApps: map[string][]*Term{}, modelsHit: map[string]bool{}, fnsHit: map[*ssa.Function]bool{},
-		nativesHit: map[string]bool{}, stubsHit: map[string]bool{}, preds: map[string]*Term{}, mapOrderRev: e.mapOrderRev, simpMemo: map[int]*Term{}, simpVersion: -1}
+		nativesHit: map[string]bool{}, stubsHit: map[string]bool{}, preds: map[string]*Term{}, mapOrderRev: e.mapOrderRev, mapOrderAlt: e.mapOrderAlt, simpMemo: map[int]*Term{}, simpVersion: -1}
 }
 
 func (w *Worker) runPath(h *ssa.Function, prefix []int, wantSample bool) (res *PathResult) {
@@ -767,12 +767,14 @@ func runProperty(prop, tier string) int {
 	}
 
 	// --- exploration
-	passes := []bool{false}
+	passes := []int{0}
 	if os.Getenv("POLYSYM_NO_REVERSE") == "" {
-		passes = append(passes, true)
+		passes = append(passes, 1, 2)
 	}
-	for _, rev := range passes {
+	for _, pass := range passes {
+		rev := pass > 0
 		eng.mapOrderRev = rev
+		eng.mapOrderAlt = pass == 2 // insertion order and reversed order alternate between the map iterations of a path
 		for _, h := range harnesses {
 			if only != "" && !strings.Contains(h.Name(), only) {
 				continue
@@ -780,7 +782,9 @@ func runProperty(prop, tier string) int {
 			if rev {
 				// the second pass reverses the order of every map iteration: it only matters for harnesses that iterate maps
 				if prev := rs.stats[h.Name()]; prev != nil && prev.MapRanges == 0 {
-					fmt.Printf("  %s: reverse-map-order pass skipped (no iteration over a map of more than one entry)\n", h.Name())
+					if pass == 1 {
+						fmt.Printf("  %s: reversed / alternating map-order passes skipped (no iteration over a map of more than one entry)\n", h.Name())
+					}
 					continue
 				}
 			}
